@@ -346,11 +346,11 @@ M("c07-scipy-no-unnegate", "C07", SCIPY,
     if problem.sense == "maximize":
         obj_value = -obj_value
 ''', '''    obj_value = float(result.fun)
-''', "R07.2", "scipy_solver")
+''', "R07.1", "solve_scipy:objective_value")
 M("c07-lp-unnegate-wrong-sense", "C07", LP,
   '''        objective_value = float(result.fun)
         if lp_data.sense == "max":''', '''        objective_value = float(result.fun)
-        if lp_data.sense == "min":''', "R07.2", "lp_solver")
+        if lp_data.sense == "min":''', "R07.1", "solve_lp:objective_value")
 M("c07-values-stale-index", "C07", SCIPY,
   '''        values={v.name: float(result.x[i]) for i, v in enumerate(variables)},''', '''        values={v.name: float(result.x[n - 1 - i]) for i, v in enumerate(variables)},''', "R07.3", "solve_scipy:values")
 M("c07-values-resorted-list", "C07", SCIPY,
